@@ -20,59 +20,30 @@ def exOpt (e : Except Unit Gen.Action) : Option Action :=
   | .ok x => some (ofGen x)
   | .error _ => none
 
-def chain (f s : Action) : Option Action :=
-  if f.prec == -1 || s.prec == -1 then none
-  else if f.prec > s.prec then some f
-  else if f.prec == s.prec then
-    if f.precTy == 2 || s.precTy == 2 then some ⟨2, 0, 2, f.prec⟩
-    else if f.precTy == 0 then some f
-    else if f.precTy == 1 then some s
-    else none
-  else some s
-
-def gchain (f s : Gen.Action) : Except Unit Gen.Action :=
-  if ((f.prec = (-1)) ∨ (s.prec = (-1))) then .error ()
-  else if (f.prec > s.prec) then .ok f
-  else if (f.prec = s.prec) then
-    if ((f.precType = 2) ∨ (s.precType = 2)) then
-      .ok { actionType := 2, actionIndex := 0, precType := 2, prec := f.prec : Gen.Action }
-    else if (f.precType = 0) then .ok f
-    else if (f.precType = 1) then .ok s
-    else .error ()
-  else .ok s
-
-theorem core_rc (a b : Action) :
-    Core.resolveConflict a b = if (b.ty == 1 && a.ty == 0) = true then chain b a else chain a b := by
-  unfold Core.resolveConflict
-  by_cases hc : (b.ty == 1 && a.ty == 0) = true
-  · simp only [hc, if_true]; rfl
-  · simp only [hc]; rfl
-
-theorem gen_rc (a b : Gen.Action) :
-    Gen.resolveConflict a b = if (b.actionType = 1 ∧ a.actionType = 0) then gchain b a else gchain a b := by
-  rfl
-
-theorem chain_eq (f s : Action) : chain f s = exOpt (gchain (toGen f) (toGen s)) := by
-  unfold chain gchain toGen
-  simp only [Bool.or_eq_true, beq_iff_eq]
-  repeat' split
-  all_goals rfl
-
+/-- shape-independent: both sides are unfolded and the case analysis is left to `grind`, so an
+    equivalent rewrite of the Go text (other nesting, `switch`, swapped comparisons) re-proves -/
 theorem rc_eq_go (a b : Action) :
     Core.resolveConflict a b = exOpt (Gen.resolveConflict (toGen a) (toGen b)) := by
-  rw [core_rc, gen_rc]
-  have e : ((b.ty == 1 && a.ty == 0) = true) ↔ ((toGen b).actionType = 1 ∧ (toGen a).actionType = 0) := by
-    simp [toGen]
-  by_cases hc : (b.ty == 1 && a.ty == 0) = true
-  · rw [if_pos hc, if_pos (e.mp hc)]; exact chain_eq b a
-  · rw [if_neg hc, if_neg (fun h => hc (e.mpr h))]; exact chain_eq a b
+  obtain ⟨t1, i1, pt1, p1⟩ := a
+  obtain ⟨t2, i2, pt2, p2⟩ := b
+  unfold Core.resolveConflict Gen.resolveConflict toGen
+  by_cases hc : (t2 == 1 && t1 == 0) = true
+  · have hc' : t2 = 1 ∧ t1 = 0 := by simpa using hc
+    simp only [hc, if_true]
+    simp only [exOpt, ofGen]
+    grind
+  · have hc' : ¬ (t2 = 1 ∧ t1 = 0) := by simpa using hc
+    simp only [hc]
+    simp only [exOpt, ofGen]
+    grind
 
 theorem ud_eq_go (a b : Action) :
     Core.useDefault a b = ofGen (Gen.useDefaultResolveConflict (toGen a) (toGen b)) := by
-  unfold Core.useDefault Gen.useDefaultResolveConflict toGen
+  obtain ⟨t1, i1, pt1, p1⟩ := a
+  obtain ⟨t2, i2, pt2, p2⟩ := b
+  unfold Core.useDefault Gen.useDefaultResolveConflict toGen ofGen
   simp only [beq_iff_eq]
-  repeat' split
-  all_goals rfl
+  grind
 
 /-- the resolution used by the model is the translated Go text -/
 theorem pairWinner_eq_go (a b : Action) :
